@@ -10,6 +10,8 @@
 From BBS Require Import Common.Sx Persist.PBL Persist.PBLProofs Persist.Syncer Persist.SyncerProofs Run.R07.
 From BBS Require Import Persist.LiveActs Persist.LiveCover Persist.LiveRelease Persist.LiveFair Persist.LivePut
   Persist.LiveBound Persist.LiveEpoch Persist.LiveTop.
+From BBS Require Import Run.R07MonBase Run.R07MonOps Run.R07MonC123 Run.R07MonCov1 Run.R07MonCov2 Run.R07MonOps2
+  Run.R07MonCov3 Run.R07MonC5 Run.R07MonTop.
 Local Open Scope nat_scope.
 
 (** No schedule makes any step panic: in particular no wake-up channel is
@@ -467,4 +469,67 @@ Example commit_and_release_example :
       /\ length (ch_closed (heap (s_pbl s))) = 2
   | _ => False
   end.
+Proof. vm_compute. repeat split; reflexivity. Qed.
+
+(** ---- THE MONITOR IS SILENT ON THE MODEL (Run/R07Mon*.v, ~4200 lines).
+    [mon07] is the property as a check on implementation observations;
+    [run07h inp hints] is the model's own observation (the hints only pick the
+    winner of a storeLock tie; [run07 inp = run07h inp []]; the judge uses the
+    hints of the observation).  For every input of the domain [dom07] — the
+    restored blocks have pairwise distinct offsets below 10000 (the fake
+    allocator hands out 10000 + 100 n) and restored epochs + number of
+    operations < 2^32 (epoch IDs are uint32) — and EVERY hint list, no clause
+    fires:
+      1  a popped block awaits release while the release loop waits — the
+         executor always reaches a QUIESCENT state (rank <= 12 < fuel 64) and
+         there the release loop is runnable, writing, sleeping, or behind the
+         put loop's state write;
+      2  schedule times closer than the minimum interval, where a non-retry
+         DataSyncer call that no interval-timer expiry preceded counts as a
+         schedule time — in the model such a call is entered from [PNotify true]
+         only, which only the expiry of the interval timer in the same operation
+         creates;
+      3  the panic / hang marker — no operation of the executor panics;
+      4/6 a completed state write does not cover an upload acknowledged before
+         the start of the last successful sync / lists the epoch of a later one
+         — per acknowledged upload a ghost object of Persist/LiveCover.v whose
+         level (written / sync started / sync completed) is the one the monitor
+         derives from its own bookkeeping, with the negative counterpart (below
+         level 2 the epoch is not among the synchronized ones);
+      5  the put loop waits (idle / returned / behind a release loop that is not
+         writing) while an acknowledged upload is not covered by the last
+         completed state write.
+    Hence a monitor hit on an implementation observation that agrees with the
+    model is impossible: a hit is always a disagreement with the model.  Without
+    the domain hypothesis clauses 1, 2 and 3 are silent for ALL inputs. ---- *)
+Theorem mon07_silent_on_model : forall inp hints, dom07 inp = true -> mon07 inp (run07h inp hints) = nil.
+Proof. exact mon07_silent_on_model_h. Qed.
+Print Assumptions mon07_silent_on_model.
+
+Theorem mon07_silent_on_model_run07 : forall inp, dom07 inp = true -> mon07 inp (run07 inp) = nil.
+Proof. exact mon07_silent_on_model_. Qed.
+Print Assumptions mon07_silent_on_model_run07.
+
+Theorem mon07_clauses_123_silent_for_all_inputs : forall inp hints k,
+  List.In k (mon07 inp (run07h inp hints)) -> (k = 4 \/ k = 5 \/ k = 6)%Z.
+Proof. exact mon07_clauses_123_silent. Qed.
+Print Assumptions mon07_clauses_123_silent_for_all_inputs.
+
+(** Non-vacuity of [dom07]: a restored block (epoch ID 2^32-2, so that the new
+    epoch's ID wraps), PushBack, Put + finalizer, the interval elapses, the timer
+    fires, the sync fails and is retried, state write, PopFront, a failed and a
+    retried state write of the release loop, cancellation, final sync, final
+    write, ProcessBlockPut returns false: 19 operations, 4 state writes. *)
+Definition mon07_example_input : sx :=
+  (L [L [A 10; A 3; A 0; A 4294967294; L [L [L [A 0; A 100]; A 7; L [A 1]; A 1]]];
+      L [L [A 4; A 1]; L [A 1; A 0; A 5; A 0; A 0]; L [A 2; A 0]; L [A 7; A 10]; L [A 8; A 1];
+         L [A 5; A 0]; L [A 7; A 3]; L [A 8; A 1]; L [A 5; A 1]; L [A 6; A 1]; L [A 3]; L [A 6; A 0]; L [A 7; A 3];
+         L [A 8; A 0]; L [A 6; A 1]; L [A 9]; L [A 5; A 1]; L [A 5; A 1]; L [A 6; A 1]]])%Z.
+
+Example mon07_domain_example :
+  dom07 mon07_example_input = true
+  /\ is_marker (run07 mon07_example_input) = false
+  /\ length (sx_list (run07 mon07_example_input)) = 19
+  /\ sx_nth (sx_nth (run07 mon07_example_input) 18) 2 = L [A 4%Z]     (* the put loop has returned *)
+  /\ sx_nth (sx_nth (run07 mon07_example_input) 18) 5 = L [A 0%Z].    (* the popped block has been released *)
 Proof. vm_compute. repeat split; reflexivity. Qed.
